@@ -1,4 +1,6 @@
 pub mod lat;
 pub mod rel;
+pub mod scope;
+pub mod sel;
 pub mod stream;
 pub mod tok;
